@@ -3,7 +3,7 @@ import ast
 import re
 
 from .absint import Domain, Interp, NORMAL, RETURN, RAISE, is_raise
-from .astutil import method_call, unparse, parent, in_subtree, is_self_call, keytext, oriented
+from .astutil import method_call, unparse, parent, in_subtree, is_self_call, keytext, oriented, ancestors
 from .index import dotted, walk_local
 from .loader import AnalysisError
 from .httpx import HT, HS, HC
@@ -553,6 +553,16 @@ def subparser_facts(run, f):
                           "" if ok else "`%s` is created inside the very loop that waits (`yield None`) and advances it: after every wait a fresh %s "
                           "is made and whatever the previous one had already consumed from the buffer is forgotten, so the result depends on where "
                           "the input was split" % (unparse(n), callee)))
+    # a sub-parser created and advanced in one expression, `next(parseX(...))`, inside a waiting loop is re-created on every resumption
+    for n in walk_local(f.node):
+        if isinstance(n, ast.Call) and dotted(n.func) == "next" and n.args and isinstance(n.args[0], ast.Call) \
+                and (dotted(n.args[0].func) or "").split(".")[-1].startswith("parse"):
+            callee = (dotted(n.args[0].func) or "").split(".")[-1]
+            loop = next((a for a in ancestors(n) if isinstance(a, (ast.While, ast.For))), None)
+            waits = loop is not None and any(isinstance(x, ast.Yield) and (x.value is None or getattr(x.value, "value", 0) is None) for x in ast.walk(loop))
+            facts.append(("subparser:%s" % callee, not waits, run.site(f, n),
+                          "" if not waits else "`%s` creates a fresh %s every time the waiting loop resumes: whatever the previous one had already consumed "
+                          "from the buffer (complete lines) is forgotten, so the result depends on where the input was split" % (unparse(n), callee)))
     return facts
 
 
